@@ -116,10 +116,20 @@ func selectSpecs(cs *Contracts, props map[string]bool, nameFilter string) []*Fun
 	return out
 }
 
+var allContracts *Contracts
+
 func pkgsOf(specs []*FuncSpec) []string {
 	set := map[string]bool{}
 	for _, sp := range specs {
 		set[pkgOfKey(sp.Key)] = true
+	}
+	// callers execute the bodies of `inline` functions, so their packages need syntax too
+	if allContracts != nil && len(specs) > 0 {
+		for _, sp := range allContracts.Funcs {
+			if sp.Inline && strings.HasPrefix(pkgOfKey(sp.Key), modulePath) {
+				set[pkgOfKey(sp.Key)] = true
+			}
+		}
 	}
 	var out []string
 	for p := range set {
@@ -340,9 +350,13 @@ func reportBroken(verif string, props []string, tier string, seed int, why strin
 }
 
 func writeEvidence(verif, p string, ev Evidence) {
-	os.MkdirAll(filepath.Join(verif, "evidence"), 0755)
+	dir := filepath.Join(verif, "evidence")
+	if d := os.Getenv("VERIF_EVIDENCE_DIR"); d != "" {
+		dir = d // self-test runs on mutated trees must not overwrite the real evidence
+	}
+	os.MkdirAll(dir, 0755)
 	data, _ := json.MarshalIndent(ev, "", " ")
-	os.WriteFile(filepath.Join(verif, "evidence", p+".json"), data, 0644)
+	os.WriteFile(filepath.Join(dir, p+".json"), data, 0644)
 }
 
 // reportProperty prints the verdict lines of one property and writes its evidence; true = violation.
